@@ -1,2 +1,3 @@
+@weight.setter
 def spec(self, value):
     WeightBiasDelayMixin.weight.fset(self, value * self.mask)
